@@ -127,6 +127,22 @@ Theorem source_signedness_is_the_first_letter_of_the_type_name :
 Proof. exact CWriterProofs.is_signed_is_first_letter. Qed.
 Print Assumptions source_signedness_is_the_first_letter_of_the_type_name.
 
+(* create_can_signals of the same file, translated as well: for every layout, start bit, length and byte order of each signal are the
+   layout piece's, the signedness is the first letter of the type's name, and the message length is the DLC of the model's frame *)
+Theorem source_can_signals_are_the_layout :
+  forall ps,
+    let '(sigs, dlc) := PyCanC.py_create_can_signals ps in
+    map (fun s => (CWriterLib.cs_start_bit s, CWriterLib.cs_bit_length s, String.eqb (CWriterLib.cs_byte_order s) "big_endian", CWriterLib.cs_signed s)) sigs
+    = map (fun p => (pstart p, plen p, is_big p, starts_with_i (CWriterLib.piece_type_name p))) ps /\
+    dlc = fold_left Z.max (map (fun p => (pstart p + plen p + 7) / 8) ps) 0.
+Proof. exact CWriterProofs.create_can_signals_is_the_layout. Qed.
+Print Assumptions source_can_signals_are_the_layout.
+
+Theorem source_dlc_is_the_models :
+  forall fid ps vs, cf_dlc (c_encode_msg fid ps vs) = snd (PyCanC.py_create_can_signals ps) mod 16.
+Proof. exact CWriterProofs.create_can_signals_dlc_is_the_models. Qed.
+Print Assumptions source_dlc_is_the_models.
+
 Example c06_nonvacuous :
   let ps := [mkp "a"%string (SI 16) 0 16; mkp "m"%string (SEnumRef "Mode") 16 4; mkp "b"%string (SU 32) 20 32; mkp "c"%string (SI 8) 52 8] in
   let vs := [-2; 3; 4000000000; -128] in
